@@ -231,10 +231,16 @@ func cmdCheck(args []string) int {
 		patterns = append(patterns, modPath+"/zz_verifrt")
 	}
 	// function stubs named for native replay are the engine's redirects, too
+	// (per unit: the entries of a unit see that unit's stubs only, as in replay)
 	if cfg.Redirects == nil {
 		cfg.Redirects = map[string]string{}
 	}
-	for _, u := range cfg.Units {
+	unitRedirects := map[int]map[string]string{}
+	for k, u := range cfg.Units {
+		m := map[string]string{}
+		for n, t := range cfg.Redirects {
+			m[n] = t
+		}
 		for _, rw := range u.Rewrites {
 			for fn, stub := range rw.Funcs {
 				pkgPath := modPath + "/" + rw.Dir
@@ -249,14 +255,15 @@ func cmdCheck(args []string) int {
 					}
 					name = "(" + star + pkgPath + "." + recv + ")" + fn[close+1:]
 				}
-				cfg.Redirects[name] = pkgPath + "." + stub
+				m[name] = pkgPath + "." + stub
 			}
 		}
+		unitRedirects[k] = m
 	}
 	prog, pkgs := loadProgram(patterns, overlay)
 
 	var results []*EntryResult
-	for _, u := range cfg.Units {
+	for uk, u := range cfg.Units {
 		ssapkg := findPkg(prog, pkgs, modPath+"/"+u.Dir)
 		if ssapkg == nil {
 			fatal("ENGINE-BIND: package %s not loaded", u.Dir)
@@ -275,7 +282,7 @@ func cmdCheck(args []string) int {
 			ex := &sx.Explorer{Prog: prog, Hub: sx.NewSolverHub(), Harness: fn, HarnessName: entry,
 				Workers: *workers, Unwind: pick(cfg.Unwind, *tier, 8), MaxSteps: 3000000,
 				MaxPaths: pick(cfg.MaxPaths, *tier, 20000), TimeoutMs: pick(cfg.TimeoutMs, *tier, 30000),
-				Seed: seed, Tier: *tier, Trace: *trace, Known: known, Redirects: cfg.Redirects,
+				Seed: seed, Tier: *tier, Trace: *trace, Known: known, Redirects: unitRedirects[uk],
 				Bounds: cfg.Bounds[*tier], MaxUnknown: 6}
 			if fx := os.Getenv("GOSMT_FIX"); fx != "" {
 				// debugging: GOSMT_FIX='name#0=<smt literal>;name2#0=...'
@@ -289,7 +296,7 @@ func cmdCheck(args []string) int {
 			if cfg.MaxSteps > 0 {
 				ex.MaxSteps = cfg.MaxSteps
 			}
-			if b := pick(cfg.BudgetS, *tier, 0); b > 0 {
+			if b := pick(cfg.BudgetS, *tier, map[string]int{"quick": 900, "thorough": 3000}[*tier]); b > 0 {
 				ex.Deadline = time.Now().Add(time.Duration(b) * time.Second)
 			}
 			if *trace {
